@@ -709,6 +709,44 @@ Proof.
   intros E. injection E as <-. auto.
 Qed.
 
+(* ... and resolves exactly as before *)
+Lemma slot_resolve_frame m m' (R : Z -> Z -> Prop) pads objs q :
+  (forall r, In r pads -> in_msg (bm_data m) r) ->
+  (forall h, In h objs -> tag_ok (bm_data m) h) ->
+  keeps m m' R -> nsegs m <= nsegs m' ->
+  (forall k, snd q <= k < snd q + 8 -> ~ R (fst q) k) ->
+  (forall r, In r pads -> forall k, r_start r <= k < r_start r + r_size r -> ~ R (r_seg r) k) ->
+  (forall h, In h objs -> tag_free R h) ->
+  slot_ok (bm_data m) pads objs q ->
+  resolve_ptr (bm_data m') (fst q) (snd q) = resolve_ptr (bm_data m) (fst q) (snd q).
+Proof.
+  intros Hin Htg K Hn Hq Hp Hf (t & rs & E & S & C). rewrite E.
+  apply (resolve_stable (bm_data m)); auto.
+  - eapply keeps_grows; eauto.
+  - unfold resolve_ptr in E. destruct (word_at (bm_data m) (fst q) (snd q)) as [w|] eqn:EW;
+      [|bad_target E S].
+    destruct (word_at_range _ _ _ _ EW) as (G1 & G2 & G3). rewrite zlen_bm in G1. rewrite seg_len_bm in G3.
+    rewrite <- EW. apply (keeps_word m m' R); auto.
+  - intros r i b Hr Hw.
+    destruct C as [[-> _]|(ps & r0 & -> & Ips & _)]; [destruct Hr|].
+    rewrite removelast_snoc in Hr. specialize (Hin r (Ips r Hr)). unfold in_msg in Hin.
+    destruct (in_seg_elim _ _ _ _ Hin) as (G1 & G2 & G3 & G4 & _). rewrite zlen_bm in G1. rewrite seg_len_bm in G4.
+    destruct Hw as (-> & W1 & W2).
+    apply (keeps_word m m' R); auto; try lia.
+    intros k Hk. apply (Hp r (Ips r Hr)). lia.
+  - intros p Hp'.
+    assert (HT : exists h, In h objs /\ t = tgt_of h).
+    { destruct C as [[_ N]|(ps & r0 & _ & _ & [[_ N]|(h & Hh & _ & Et)])].
+      - destruct t; cbn in N, Hp'; try contradiction; discriminate.
+      - destruct t; cbn in N, Hp'; try contradiction; discriminate.
+      - exists h. auto. }
+    destruct HT as (h & Hh & ->). destruct (tag_pos_tgt _ _ Hp') as (Ek & Hc & ->). cbn [fst snd].
+    destruct (Htg h Hh Ek Hc) as (tag & _ & E2).
+    destruct (word_at_range _ _ _ _ E2) as (G1 & G2 & G3). rewrite zlen_bm in G1. rewrite seg_len_bm in G3.
+    apply (keeps_word m m' R); auto; try lia.
+    intros k Hk. apply (Hf h Hh Ek Hc). lia.
+Qed.
+
 (* a slot whose own word, whose pads and whose target's tag word are not touched stays valid *)
 Lemma slot_ok_frame m m' (R : Z -> Z -> Prop) pads objs pads' objs' q :
   (forall r, In r pads -> in_msg (bm_data m) r) ->
@@ -1018,14 +1056,18 @@ Proof.
       cbv [reg_disjoint obj_reg r_seg r_start r_size] in D, S3, T2. lia.
 Qed.
 
-Lemma hinv_place m objs pads w q ht raw w' :
+Lemma hinv_place_full m objs pads w q ht raw w' :
   w_dst w = m -> hinv m objs pads ->
   In q ((0, 0) :: flat_map slots objs) -> In ht objs ->
   (p_kind ht = KStruct -> os_isZero (p_size ht) = false) ->
   raw_of ht = Ok raw ->
   place w (fst q) (snd q) (p_seg ht) (obj_start ht) raw = Ok w' ->
   nsegs (w_dst w') < 4294967296 ->
-  exists pads', hinv (w_dst w') objs (pads ++ pads').
+  exists pads', hinv (w_dst w') objs (pads ++ pads') /\
+    resolve_ptr (bm_data (w_dst w')) (fst q) (snd q) = (tgt_of ht, pads' ++ [obj_reg ht]) /\
+    keeps m (w_dst w') (Rword (fst q) (snd q)) /\
+    (forall q', In q' ((0, 0) :: flat_map slots objs) -> ~ (fst q' = fst q /\ snd q' = snd q) ->
+       resolve_ptr (bm_data (w_dst w')) (fst q') (snd q') = resolve_ptr (bm_data m) (fst q') (snd q')).
 Proof.
   intros Ew H Hq Hht Hnz Hraw Hpl Hns'. subst m. set (m := w_dst w) in *.
   destruct (slot_geometry _ _ _ _ H Hq) as (Q1 & Q2 & Q3 & Q4 & (rq & Rq1 & Rq2 & Rq3 & Rq4)).
@@ -1062,6 +1104,27 @@ Proof.
   { intros a Ha. apply (hi_in _ _ _ H). unfold all_regs. apply in_or_app. right. exact Ha. }
   assert (L1 : (length pads' <= 1)%nat) by (destruct Hpd; cbn; lia).
   assert (TF := slot_avoids_tags _ _ _ _ H Hq).
+  assert (PadF : forall r, In r pads -> forall k, r_start r <= k < r_start r + r_size r -> ~ Rword (fst q) (snd q) (r_seg r) k).
+  { intros r Hr k Hk [X1 X2].
+    pose proof (hi_cross _ _ _ H _ _ Rq1 Hr) as D. pose proof (hi_pads _ _ _ H r Hr) as Pz.
+    destruct r as [rs rst rsz]. destruct rq as [qs qst qsz]. cbv [reg_disjoint r_seg r_start r_size] in *. lia. }
+  assert (RQ : resolve_ptr (bm_data m') (fst q) (snd q) = (tgt_of ht, pads' ++ [obj_reg ht])).
+  { assert (PR := placed_resolve (bm_data m') (fst q) (snd q) (p_seg ht) (obj_start ht) raw (fun i => zlen (mem m i)) pads' Hpd Rw).
+    assert (Gt' : good (bm_data m') ht) by (eapply good_mono; eauto).
+    assert (Tt' : tag_ok (bm_data m') ht) by (apply (tag_ok_frame m m' (Rword (fst q) (snd q))); auto).
+    destruct (obj_decode (bm_data m') ht Vt Gt' Tt' Hnz) as (raw2 & Er2 & _ & DE). rewrite Hraw in Er2. apply Ok_inj in Er2. subst raw2.
+    rewrite PR; try lia.
+    - rewrite DE. reflexivity.
+    - pose proof (Hsm (fst q)). unfold maxSegmentSize in *. lia.
+    - rewrite zlen_bm. lia.
+    - intros p Hp. destruct (PF p Hp) as (Z1 & Z2 & Z3). unfold in_msg in Z3.
+      destruct (in_seg_elim _ _ _ _ Z3) as (Y1 & Y2 & Y3 & Y4 & Y5). rewrite seg_len_bm in Y4.
+      pose proof (Sm' (r_seg p)). unfold maxSegmentSize in *. lia. }
+  split; [|split; [exact RQ|split; [exact K|]]].
+  2:{ intros q' Hq' NE. apply (slot_resolve_frame m m' (Rword (fst q) (snd q)) pads objs); auto.
+      - apply (hi_tags _ _ _ H).
+      - intros k Hk [X1 X2]. destruct (slot_geometry _ _ _ _ H Hq') as (_ & _ & P3 & _). lia.
+      - apply (hi_slots _ _ _ H). exact Hq'. }
   constructor; auto.
   - intros x Hx. destruct (hi_good _ _ _ H x Hx) as [V Gx]. split; [exact V|eapply good_mono; eauto].
   - intros x Hx. apply (tag_ok_frame m m' (Rword (fst q) (snd q))); auto. apply (hi_tags _ _ _ H); exact Hx.
@@ -1081,30 +1144,30 @@ Proof.
     destruct DEC as [[E1 E2]|NE].
     + (* the slot just written *)
       assert (Eq : q' = q) by (destruct q, q'; cbn in *; congruence). subst q'.
-      assert (PR := placed_resolve (bm_data m') (fst q) (snd q) (p_seg ht) (obj_start ht) raw (fun i => zlen (mem m i)) pads' Hpd Rw).
-      assert (Gt' : good (bm_data m') ht) by (eapply good_mono; eauto).
-      assert (Tt' : tag_ok (bm_data m') ht) by (apply (tag_ok_frame m m' (Rword (fst q) (snd q))); auto).
-      destruct (obj_decode (bm_data m') ht Vt Gt' Tt' Hnz) as (raw2 & Er2 & _ & DE). rewrite Hraw in Er2. apply Ok_inj in Er2. subst raw2.
       exists (tgt_of ht), (pads' ++ [obj_reg ht]). split; [|split].
-      * rewrite PR; try lia.
-        -- rewrite DE. reflexivity.
-        -- pose proof (Hsm (fst q)). unfold maxSegmentSize in *. lia.
-        -- rewrite zlen_bm. lia.
-        -- intros p Hp. destruct (PF p Hp) as (Z1 & Z2 & Z3). unfold in_msg in Z3.
-           destruct (in_seg_elim _ _ _ _ Z3) as (Y1 & Y2 & Y3 & Y4 & Y5). rewrite seg_len_bm in Y4.
-           pose proof (Sm' (r_seg p)). unfold maxSegmentSize in *. lia.
+      * exact RQ.
       * unfold tgt_of. destruct (p_kind ht); try exact I. destruct (p_comp ht); exact I.
       * right. exists pads', (obj_reg ht). split; [reflexivity|]. split; [intros x Hx; apply in_or_app; right; exact Hx|].
         right. exists ht. auto.
     + apply (slot_ok_frame m m' (Rword (fst q) (snd q)) pads objs); auto.
       * apply (hi_tags _ _ _ H).
       * intros k Hk [X1 X2]. lia.
-      * intros r Hr k Hk [X1 X2].
-        pose proof (hi_cross _ _ _ H _ _ Rq1 Hr) as D. pose proof (hi_pads _ _ _ H r Hr) as Pz.
-        destruct r as [rs rst rsz]. destruct rq as [qs qst qsz]. cbv [reg_disjoint r_seg r_start r_size] in *. lia.
       * intros x Hx. apply in_or_app. left. exact Hx.
       * apply incl_refl.
       * apply (hi_slots _ _ _ H). exact Hq'.
+Qed.
+
+Lemma hinv_place m objs pads w q ht raw w' :
+  w_dst w = m -> hinv m objs pads ->
+  In q ((0, 0) :: flat_map slots objs) -> In ht objs ->
+  (p_kind ht = KStruct -> os_isZero (p_size ht) = false) ->
+  raw_of ht = Ok raw ->
+  place w (fst q) (snd q) (p_seg ht) (obj_start ht) raw = Ok w' ->
+  nsegs (w_dst w') < 4294967296 ->
+  exists pads', hinv (w_dst w') objs (pads ++ pads').
+Proof.
+  intros A B C D E F G I. destruct (hinv_place_full m objs pads w q ht raw w' A B C D E F G I) as (pads' & X & _).
+  exists pads'. exact X.
 Qed.
 
 (* ------------------------------------------------------------------ what the invariant gives *)
@@ -1169,4 +1232,31 @@ Proof.
   - intros i j Hij Hj. cbn in Hj. lia.
   - intros a p _ [].
   - intros q [<-|[]]. apply null_slot_ok. reflexivity.
+Qed.
+
+(* ------------------------------------------------------------------ read back over the object table *)
+(* the abstract store of a message: the bytes of every table object and the target of every
+   pointer slot.  A data write inside one object: the written bytes are read back, every other
+   byte of every segment is unchanged (in particular the data of every other object), and
+   every pointer slot of the table resolves exactly as before. *)
+Theorem data_write_read_back m objs pads m' h addr bs :
+  hinv m objs pads -> In h objs -> 0 <= p_seg h ->
+  wrote m m' (p_seg h) addr bs ->
+  p_off h <= addr -> addr + zlen bs <= obj_start h + r_size (obj_reg h) ->
+  (forall q, In q (slots h) -> addr + zlen bs <= snd q \/ snd q + 8 <= addr) ->
+  slice (mem m' (p_seg h)) addr (zlen bs) = Ok bs /\
+  keeps m m' (fun i k => i = p_seg h /\ addr <= k < addr + zlen bs) /\
+  (forall q, In q ((0, 0) :: flat_map slots objs) ->
+     resolve_ptr (bm_data m') (fst q) (snd q) = resolve_ptr (bm_data m) (fst q) (snd q)).
+Proof.
+  intros H Hh Hs W Hlo Hhi Hsl.
+  pose proof (wrote_keeps _ _ _ _ _ W Hs) as K.
+  assert (N : nsegs m' = nsegs m) by (unfold nsegs; apply (wrote_nsegs _ _ _ _ _ W)).
+  destruct (data_range_avoids m objs pads h addr (addr + zlen bs) H Hh Hlo Hhi Hsl) as (A1 & A2 & A3).
+  split; [|split; [exact K|]].
+  - apply (wrote_slice_same m m'); auto. pose proof (hi_small _ _ _ H (p_seg h)). unfold maxSegmentSize in *. lia.
+  - intros q Hq. apply (slot_resolve_frame m m' (fun i k => i = p_seg h /\ addr <= k < addr + zlen bs) pads objs); auto; try lia.
+    + intros r Hr. apply (hi_in _ _ _ H). unfold all_regs. apply in_or_app. right. exact Hr.
+    + apply (hi_tags _ _ _ H).
+    + apply (hi_slots _ _ _ H). exact Hq.
 Qed.
